@@ -357,9 +357,10 @@ def jobs(tier):
           Job("search-space", job_search_space, dict(nmax=8 if tier == "quick" else 12, rmax=5 if tier == "quick" else 7), "search_space", 600)]
     sizes = [(n, r) for n in range(2, 9) for r in (1, 2) if (n, r) != (2, 1)]
     if tier == "thorough":
-        sizes += [(n, r) for n in range(2, 9) for r in (3, 4)] + [(n, r) for n in range(9, 13) for r in (1, 2, 3, 4)]
+        # measured under load (16 jobs in parallel): n=7,r=4 246 s; n=8,r=3 222 s; n=9,r=2 196 s; n=10,r=1 102 s; beyond: unknown at 300 s
+        sizes += [(n, r) for n in range(2, 8) for r in (3, 4) if not (n == 7 and r == 4)] + [(8, 3), (9, 1), (9, 2), (10, 1)]
     for n, r in sizes:
-        js.append(Job(f"step/n{n}/r{r}", job_step, dict(n=n, rounds=r), "earliest_slot", 900))
+        js.append(Job(f"step/n{n}/r{r}", job_step, dict(n=n, rounds=r, timeout_s=300 if tier == "quick" else 900), "earliest_slot", 1200))
         js.append(Job(f"prefix/n{n}/r{r}", job_prefix, dict(n=n, rounds=r), "earliest_slot", 300))
     for n, r, L in [(4, 2, 3), (4, 3, 3), (5, 2, 3), (4, 3, 4)] + ([(6, 2, 3), (6, 3, 4), (5, 3, 4), (4, 4, 5)] if tier == "thorough" else []):
         js.append(Job(f"short/n{n}/r{r}/L{L}", job_short, dict(n=n, rounds=r, L=L, timeout_s=600), "earliest_slot", 800))
@@ -371,7 +372,7 @@ def jobs(tier):
 def meta(tier):
     return dict(
         bounds=dict(step="one game from an arbitrary mutually consistent plan (entries -n..n, no self-play), any game code 0..n(n-1)-1; "
-                         "n<=8, rounds<=2 (thorough: n<=12, rounds<=4)",
+                         "n<=8, rounds<=2 (thorough: additionally rounds 3-4 up to n=7 (n=7: 3), (8,3), (9,1), (9,2), (10,1); larger sizes end in solver timeouts and are not claimed)",
                     short="arbitrary code sequences of length 3-4 (thorough 5), n<=5 (thorough 6), whole run vs declarative plan (state carried between games)",
                     whole="any code sequence of blueprint length vs declarative plan for (2,2),(3,1),(3,2) (thorough adds (4,1),(2,3),(2,4))",
                     search_space="enumerated configurations 2<=n<=8, rounds<=5 (thorough 12, 7) - configuration enumeration, not a solver verdict"),
